@@ -128,8 +128,15 @@ func eqKE(a, b []ke) bool {
 }
 
 // c11Check compares one specification edge with the real tree builder.
+// c11EOL is the line-break convention the next case is rendered with; c11-replay rotates it (the context rule does not
+// depend on it, line numbers neither).
+var c11EOL = "\n"
+
 func c11Check(cs *c11Case) (ok bool, what string, nontrivial bool) {
 	rd := renderTokens(cs.H, true, canon)
+	if c11EOL != "\n" {
+		rd.text = strings.ReplaceAll(rd.text, "\n", c11EOL)
+	}
 	o := observeTree(rd.text)
 	last := len(cs.H) - 1
 	nontrivial = len(cs.S) >= 2 || cs.R != "ok"
@@ -186,6 +193,10 @@ func c11Replay(args []string) *Result {
 			}
 		}
 		res.Cases++
+		c11EOL = "\n"
+		if !selftest {
+			c11EOL = []string{"\n", "\r\n", "\r"}[res.Cases%3]
+		}
 		ok, what, nt := c11Check(&cs)
 		if nt {
 			key := fmt.Sprint(cs.S, cs.R, cs.H[len(cs.H)-1])
@@ -196,7 +207,7 @@ func c11Replay(args []string) *Result {
 		res.count("expect-" + cs.R)
 		if !ok {
 			rd := renderTokens(cs.H, true, canon)
-			res.mismatch("c11:"+what, what, map[string]any{"kind": "c11", "case": cs, "doc": rd.text})
+			res.mismatch("c11:"+what, what, map[string]any{"kind": "c11", "case": cs, "doc": strings.ReplaceAll(rd.text, "\n", c11EOL), "eol": c11EOL})
 		} else if res.Cases%50000 == 1 {
 			rd := renderTokens(cs.H, true, canon)
 			res.sample(map[string]any{"doc": rd.text, "expect": cs.R, "chain": cs.S})
